@@ -8,5 +8,10 @@ pub assume_specification<T: Default>[ std::mem::take::<T> ](dest: &mut T) -> (r:
     ensures r == *old(dest), *final(dest) == default_of::<T>();
 pub assume_specification<T>[ std::mem::replace::<T> ](dest: &mut T, src: T) -> (r: T)
     ensures r == *old(dest), *final(dest) == src;
+pub assume_specification<T, E, U>[ Result::<T, E>::and::<U> ](a: Result<T, E>, b: Result<U, E>) -> (r: Result<U, E>)
+    ensures r == (match a { Ok(_) => b, Err(e) => Err::<U, E>(e) });
+pub assume_specification<T, E, U, F: FnOnce(T) -> Result<U, E>>[ Result::<T, E>::and_then::<U, F> ](a: Result<T, E>, f: F) -> (r: Result<U, E>)
+    requires a is Ok ==> f.requires((a->Ok_0,)),
+    ensures match a { Ok(v) => f.ensures((v,), r), Err(e) => r == Err::<U, E>(e) };
 // Vec lengths never exceed usize::MAX (std: capacity <= isize::MAX)
 pub axiom fn axiom_vec_len_bound<T>(v: &Vec<T>) ensures v@.len() <= usize::MAX;
